@@ -284,10 +284,22 @@ fn def_roots(s: &S, is_root: bool, out: &mut Vec<bool>) {
     }
 }
 
+thread_local! {
+    /// Set while programs around the boundary of the definition-order rule are rewritten: sites
+    /// are then mostly the roots of definitions.
+    static PREFER_DEF_ROOTS: std::cell::Cell<bool> = const { std::cell::Cell::new(false) };
+}
+
 /// A node index that is not a definition root (None if there is none).
 fn pick_site(s: &S, ch: &mut Ch) -> Option<usize> {
     let mut roots = vec![];
     def_roots(s, false, &mut roots);
+    if PREFER_DEF_ROOTS.with(std::cell::Cell::get) && ch.chance(3, 4) {
+        let only: Vec<usize> = roots.iter().enumerate().filter(|(_, r)| **r).map(|(i, _)| i).collect();
+        if !only.is_empty() {
+            return Some(only[ch.pick(only.len())]);
+        }
+    }
     // Now and then the root of a definition's right-hand side is allowed as well: whether the
     // rewritten group still satisfies the definition-order rule is decided afterwards (R-order).
     let roots_too = ch.chance(1, 3);
@@ -561,18 +573,54 @@ fn observe(elab: &crate::term::Term, budget: u64) -> Result<Obs, String> {
     Ok(match pipe::run_steps(elab, budget)? {
         Eval::Value(v, _) => Obs::Value(typed::gram_value(&v).ok_or("value of unknown kind")?, D::from_gram(&v).show()),
         Eval::Running(_) => Obs::Running,
-        Eval::Stuck(t, _) => Obs::Stuck(format!("{:?}", pipe::classify_stuck(&t))),
+        // The way evaluation stops, without the names involved (they differ under renaming).
+        Eval::Stuck(t, _) => Obs::Stuck(match pipe::classify_stuck(&t) {
+            pipe::StuckKind::GroupVariable { definition_is_value, .. } => format!("at a variable of a group under evaluation (its definition is a value: {definition_is_value})"),
+            pipe::StuckKind::FreeVariable(_) => "at a free variable".to_owned(),
+            pipe::StuckKind::Other(_) => "other".to_owned(),
+            k => format!("{k:?}"),
+        }),
     })
 }
 
+/// A program around the boundary of the definition-order rule (see C05's order-rule part) that
+/// satisfies the rule, as a base for rewrites at the roots of its definitions.
+fn order_base(ch: &mut Ch) -> Option<prog::Program> {
+    let mut counter = 0;
+    let depth = ch.pick(2);
+    let text = crate::checks::c05::order_group(ch, depth, &[], &mut counter);
+    let toks = crate::refs::lex::expected_stream(&text)?;
+    if toks.len() >= 240 {
+        return None;
+    }
+    let s = crate::checks::c07::with_grammar(|g| crate::refs::chart::parse_tokens(g, &toks).1)?.flatten().unparen();
+    if !crate::refs::order::order_ok(&s) {
+        return None;
+    }
+    let text = sast::print_plain(&s);
+    Some(prog::Program { s, text, ty: S::Int, features: BTreeSet::new() })
+}
+
 fn rewrite_case(ctx: &Ctx, ch: &mut Ch) -> Outcome {
+    let order_family = ch.chance(1, 5);
+    PREFER_DEF_ROOTS.with(|c| c.set(order_family));
+    let r = rewrite_case_inner(ctx, ch, order_family);
+    PREFER_DEF_ROOTS.with(|c| c.set(false));
+    r
+}
+
+fn rewrite_case_inner(ctx: &Ctx, ch: &mut Ch, order_family: bool) -> Outcome {
     let cfg = ProgCfg { forward_aliases: false, ..ProgCfg::default() };
     let kind = [0, 0, 1, 2][ch.pick(4)];
     let fuel = 2 + ch.pick(4);
-    let Some(p) = prog::gen_program(ch, cfg, kind, fuel) else {
-        ctx.class("generator: gave up");
+    let generated = if order_family { order_base(ch) } else { prog::gen_program(ch, cfg, kind, fuel) };
+    let Some(p) = generated else {
+        ctx.class(if order_family { "order family: the generated group does not satisfy the rule (skipped)" } else { "generator: gave up" });
         return Ok(());
     };
+    if order_family {
+        ctx.class("order family: base program at the boundary of the definition-order rule");
+    }
     if p.text.len() > 3000 {
         return Ok(());
     }
@@ -712,7 +760,7 @@ pub fn def(tier: Tier) -> CheckDef {
     CheckDef {
         id: "C19",
         level: "exploration",
-        rule: "accepted type-directed generated programs (a quarter annotation-erased), each subjected to 1-4 rewrites at generated sites: r1 consistent renaming of a subset of binders to fresh names from ASCII / keyword-like / non-ASCII pools; r2 redundant parentheses around any node; r3 an unused definition (value and non-value, annotated or not) wrapped around any node or inserted at any position of an existing group; r4 a node named by a definition (with and without annotation); r5 a node wrapped in an immediately applied annotated identity (at the root or where the type is evident); r6 `if true then e else e`; r7 two adjacent function definitions that do not mention each other swapped; oracle (no reference semantics) = the rewritten program is accepted, gram's own conversion judges the two reported types equal, and the `step` loop ends the same way (same literal / same kind; structurally identical value for parentheses-only rewrites); `gram check` / `gram run` exit status and printed value compared on a sample; non-trivial = at least one rewrite site below the root; per-rewrite counts are in the evidence; distinct by program pair",
+        rule: "accepted type-directed generated programs (a quarter annotation-erased), each subjected to 1-4 rewrites at generated sites: r1 consistent renaming of a subset of binders to fresh names from ASCII / keyword-like / non-ASCII pools; r2 redundant parentheses around any node; r3 an unused definition (value and non-value, annotated or not) wrapped around any node or inserted at any position of an existing group; r4 a node named by a definition (with and without annotation); r5 a node wrapped in an immediately applied annotated identity (at the root or where the type is evident); r6 `if true then e else e`; r7 two adjacent function definitions that do not mention each other swapped; a fifth of the base programs are groups at the boundary of the definition-order rule (functions in value and non-value form mentioning earlier, later and nested definitions) rewritten mostly at the roots of their definitions, the rewritten program being in the domain when it still satisfies the rule as documented (R-order); oracle (no reference semantics) = the rewritten program is accepted, gram's own conversion judges the two reported types equal, and the `step` loop ends the same way (same literal / same kind; structurally identical value for parentheses-only rewrites); `gram check` / `gram run` exit status and printed value compared on a sample; non-trivial = at least one rewrite site below the root; per-rewrite counts are in the evidence; distinct by program pair",
         assumptions: vec!["int / bool results of `gram run` print identically for both programs (no names involved)"],
         idle_limit_s: 180,
         needs_cli: true,
